@@ -41,6 +41,7 @@ func init() {
 	register(multiEngine{})
 	register(copyEngine{})
 	register(rfEngine{})
+	register(fsEngine{})
 }
 
 // ---------------------------------------------------------------------------
@@ -220,7 +221,7 @@ func crashViolation(eng Engine, code int, stderr string) *Violation {
 		return &Violation{Property: prop, Class: "go_stack_exhausted", Detail: firstLines(stderr, 12)}
 	}
 	if strings.Contains(stderr, "fatal error:") || strings.Contains(stderr, "panic:") {
-		return &Violation{Property: prop, Class: "process_crash", Detail: firstLines(stderr, 30)}
+		return &Violation{Property: prop, Class: "process_crash", Detail: firstLines(stderr, 6)}
 	}
 	fatalf("child exited %d without a recognisable report:\n%s", code, firstLines(stderr, 40))
 	return nil
@@ -247,9 +248,39 @@ var stopAfter int
 var batchDeadline time.Time
 var childBin string
 
+// Enumerator is implemented by engines whose case space is finite: the parent
+// then hands out index ranges instead of PRNG values.
+type Enumerator interface {
+	Enumerate(tier string) []interface{}
+}
+
+var enumFrom, enumTo = -1, -1
+
 func runBatch(eng Engine, seed uint64, checks int, tier string, skip int, isolate bool, curPath string) *BatchResult {
 	res := &BatchResult{Engine: eng.Name(), Seed: seed, Checks: checks, Stats: NewStats()}
 	st := res.Stats
+	if en, ok := eng.(Enumerator); ok && enumFrom >= 0 {
+		cases := en.Enumerate(tier)
+		for i := enumFrom; i < enumTo && i < len(cases); i++ {
+			if curPath != "" {
+				writeJSON(curPath, map[string]interface{}{"index": i, "case": cases[i]})
+			}
+			v, rc, _ := eng.Exec(cases[i], st)
+			if v != nil {
+				if kf := isKnown(v); kf != nil {
+					st.Known[kf.Property+" "+kf.Key]++
+					continue
+				}
+				res.Violation, res.Case = v, rc
+				break
+			}
+			if len(st.Samples) < 2 {
+				st.AddSample(cases[i])
+			}
+		}
+		st.Freeze()
+		return res
+	}
 	flag.Set("rapid.seed", strconv.FormatUint(seed|1, 10))
 	flag.Set("rapid.checks", strconv.Itoa(checks))
 	flag.Set("rapid.nofailfile", "true")
@@ -412,6 +443,8 @@ func main() {
 		}
 		eng.Init()
 		stopAfter = atoi(a["stopafter"], 0)
+		enumFrom, enumTo = atoi(a["enumfrom"], -1), atoi(a["enumto"], -1)
+		collectMode = os.Getenv("VERIF_COLLECT") != ""
 		seed, _ := strconv.ParseUint(a["seed"], 10, 64)
 		if d := a["deadline"]; d != "" {
 			ms, _ := strconv.ParseInt(d, 10, 64)
@@ -505,6 +538,8 @@ func main() {
 		eng := engines[a["engine"]]
 		eng.Init()
 		stopAfter = atoi(a["stopafter"], 0)
+		enumFrom, enumTo = atoi(a["enumfrom"], -1), atoi(a["enumto"], -1)
+		collectMode = os.Getenv("VERIF_COLLECT") != ""
 		seed, _ := strconv.ParseUint(a["seed"], 10, 64)
 		eventLogOn = true
 		res := runBatch(eng, seed, atoi(a["checks"], 20), a["tier"], 0, false, "")
@@ -585,6 +620,7 @@ type checkCfg struct {
 	rule                       string
 	assumptions                []string
 	real, simulated            []string
+	exhaustive                 bool
 }
 
 func checkMain(a map[string]string) int {
@@ -651,15 +687,24 @@ func checkMain(a map[string]string) int {
 	if tier == "thorough" {
 		checks *= 4
 	}
+	enumTotal := -1
+	if en, ok := engines[cfg.engine].(Enumerator); ok {
+		engines[cfg.engine].Init()
+		enumTotal = len(en.Enumerate(tier))
+	}
 	for w := 0; w < workers; w++ {
 		wg.Add(1)
 		go func(w int) {
 			defer wg.Done()
 			for {
 				mu.Lock()
-				if firstViol != nil || harnessErr != "" || (time.Now().After(deadline) && batches >= cfg.minBatches) {
+				if firstViol != nil || harnessErr != "" || (enumTotal < 0 && time.Now().After(deadline) && batches >= cfg.minBatches) {
 					mu.Unlock()
 					return
+				}
+				if enumTotal >= 0 && nextBatch*checks >= enumTotal {
+					mu.Unlock()
+					return // the finite space has been handed out completely
 				}
 				bi := nextBatch
 				nextBatch++
@@ -670,6 +715,9 @@ func checkMain(a map[string]string) int {
 				args := []string{"batch", "--engine", cfg.engine, "--seed", strconv.FormatUint(bseed, 10), "--checks", strconv.Itoa(checks), "--tier", tier, "--out", out, "--cur", cur, "--deadline", strconv.FormatInt(deadline.UnixMilli(), 10)}
 				if bi == 0 {
 					args = append(args, "--preflight")
+				}
+				if enumTotal >= 0 {
+					args = append(args, "--enumfrom", strconv.Itoa(bi*checks), "--enumto", strconv.Itoa((bi+1)*checks))
 				}
 				if bi%2 == 1 {
 					args = append(args, "--warm")
@@ -697,6 +745,26 @@ func checkMain(a map[string]string) int {
 						if cf.FirstFail > 0 {
 							idx = cf.FirstFail // died while minimising an earlier in-process violation
 						}
+					}
+					if enumTotal >= 0 {
+						// enumerated space: the case that killed the child is the replay
+						var cm map[string]interface{}
+						if b, err := os.ReadFile(cur); err == nil {
+							var cf struct {
+								Case map[string]interface{} `json:"case"`
+							}
+							json.Unmarshal(b, &cf)
+							cm = cf.Case
+						}
+						mu.Lock()
+						batches++
+						if firstViol == nil {
+							firstViol = &BatchResult{Engine: cfg.engine, Stats: NewStats(), Violation: v, Case: cm}
+							violSeed = bseed
+						}
+						mu.Unlock()
+						killChildren()
+						return
 					}
 					fmt.Printf("batch %d (seed %d) died at case %d: %s; minimising in isolated children\n", bi, bseed, idx, v.Class)
 					args2 := append(append([]string{}, args...), "--isolate", "--skip", strconv.Itoa(idx-1))
@@ -870,7 +938,7 @@ func writeEvidence(cfg checkCfg, seed uint64, st *Stats, batches int, wall float
 		"programs_swept_at_every_step": st.Exhaustive,
 		"real_components":      cfg.real,
 		"simulated_components": cfg.simulated,
-		"exhaustive":           false,
+		"exhaustive":           cfg.exhaustive,
 	}
 	if len(st.Samples) == 0 {
 		cov["samples"] = []interface{}{"(no case completed)"}
@@ -892,6 +960,16 @@ func writeEvidence(cfg checkCfg, seed uint64, st *Stats, batches int, wall float
 }
 
 var checkConfigs = map[string]checkCfg{
+	"C02": {
+		prop: "C02", engine: "faultsweep", level: "fault_enumeration", checksPerBatch: 1, minBatches: 1, exhaustive: true,
+		rule: "the grid (built-in function discovered on a fresh global object, call or construct) x (one varying position among receiver / argument 1 / argument 2) x 16 value kinds (among them trap objects and trap functions whose valueOf/toString/toJSON/getters/body count invocations) x faults {none, throw at the 1st/2nd/3rd trap invocation, host-function panic, interrupt panic at the 1st/2nd trap invocation, stack depth limit 3..6} is enumerated completely (thorough adds all kind pairs); evaluations = cells executed. distinct_nontrivial = number of built-in functions whose whole slice of the grid was executed.",
+		assumptions: []string{
+			"claimed slice only: fault containment; totality on arbitrary source text and the plain input grid beyond these 16 kinds are outside deterministic simulation",
+			"nothing is asserted about which value or error comes back, only that the API call returns, that only injected panics escape, and that the runtime is at rest and usable afterwards",
+		},
+		real:      []string{"otto evaluator and every built-in, catchPanic, Interrupt polling, stack-depth guard"},
+		simulated: []string{"trap callbacks with fault counters", "host functions hpanic/hirq", "seeded random source"},
+	},
 	"C04": {
 		prop: "C04", engine: "readerfault", level: "fault_enumeration", checksPerBatch: 6, minBatches: 16,
 		rule: "cases = generated program texts (workload generator, syntax zoo, interpreter fragments; <= 1500 bytes); for each text EVERY cut point n in [0,len] is delivered as a truncated stream through a simulated reader (1-byte / small / large / whole chunks, rune splits, (0,nil) reads, (n,EOF)) to parser.ParseFile and compared with parsing the same prefix as a string; run/compile/eval-level checks at statement boundaries and a sample of cuts; read errors after n bytes for every 4th n; whole-text chunkings through reader, []byte and *bytes.Buffer; every accepted tree is checked for spans and ast.Walk. evaluations = simulated deliveries. distinct_nontrivial = distinct (accepted tree hash | rejection message) outcomes over cut points strictly inside a text.",
